@@ -119,14 +119,18 @@ class VRT:
             L.vrt_get_acc(ptr(addr), ptr(sz), ptr(w), ptr(tid), ptr(ph))
         return addr, sz, w, tid, ph
 
-    def explore(self, prepare, call, observe, nthreads, bound, max_exec=2_000_000, max_restarts=50, prune=True):
+    def explore(self, prepare, call, observe, nthreads, bound, max_exec=2_000_000, max_restarts=50, prune=True,
+                early_stop=None, budget_s=None):
         """prepare(): reset all in/out buffers in place; call(): run kernel; observe(): hashable outcome.
 
         Returns dict(executions, outcomes{obs: first schedule}, points_max, filter_size, restarts,
         nodes, capped, conflicts_seen)."""
+        import time as _time
+        t_start = _time.time()
         filt = set()
         restarts = 0
         total_exec = 0
+        stopped = False
         while True:
             self.set_filter(filt)
             stack = [[]]
@@ -161,6 +165,9 @@ class VRT:
                     obs = observe(r["ret"])
                 if obs not in outcomes:
                     outcomes[obs] = list(prefix)
+                    if early_stop is not None and early_stop(obs):
+                        stopped = True
+                        break
                 conf_events += r["nconf"]
                 nen, ch, ce = r["nen"], r["ch"], r["ce"]
                 npts = r["npoints"]
@@ -189,7 +196,7 @@ class VRT:
                                     stack.append(base + [alt])
                     if chl[i] != 0 and ce[i]:
                         pre += 1
-                if total_exec >= max_exec:
+                if total_exec >= max_exec or (budget_s is not None and _time.time() - t_start > budget_s):
                     capped = True
                     break
             if restart:
@@ -199,4 +206,4 @@ class VRT:
                 continue
             return {"executions": nexec, "total_executions": total_exec, "outcomes": outcomes, "points_max": pmax,
                     "filter_size": len(filt), "restarts": restarts, "nodes": nodes, "capped": capped,
-                    "conflict_events": conf_events, "pruned": pruned, "region_states": len(claimed)}
+                    "conflict_events": conf_events, "pruned": pruned, "stopped_early": stopped, "region_states": len(claimed)}
